@@ -44,13 +44,19 @@ def run(R):
         r0 = [r for t in t0 for r in guard_region(g, t, 'true') if r.kind == 'stmt' and isinstance(r.ast, ast.Return) and is_const(r.ast.value, False)]
         c.check(len(t0) == 1 and len(r0) == 1, f, t0[0].ast if t0 else None, 'a closed fdspawn is never reported alive', kind='path', tag='fd-closed-false')
         trs = [t for t in iter_nodes(f.node) if isinstance(t, ast.Try)]
-        ok = len(trs) == 1 and any(dotted(k.func) == 'os.fstat' and norm(k.args[0]) == 'self.child_fd' for s in trs[0].body for k in calls_in(s)) and \
-            any(isinstance(s, ast.Return) and is_const(s.value, True) for s in trs[0].body) and \
-            all(any(isinstance(s, ast.Return) and is_const(s.value, False) for s in h.body) for h in trs[0].handlers) and trs[0].handlers
-        c.check(ok, f, trs[0] if trs else None, 'alive iff os.fstat(self.child_fd) succeeds', kind='ast', tag='fd-fstat')
-        if trs:
-            tn = g.node_of_stmt(trs[0].body[0])
-            c.check(tn is not None and bool(t0) and g.dominated_by(tn, {t0[0]})[0], f, trs[0], 'the closed test comes first', tag='fd-order')
+        fs = cfg_nodes_with_call(f, lambda k: dotted(k.func) == 'os.fstat' and k.args and norm(k.args[0]) == 'self.child_fd')
+        rt = set(r for r in returns(f) if is_const(r.ast.value, True))
+        rf = set(r for r in returns(f) if is_const(r.ast.value, False))
+        ok = len(fs) == 1 and bool(rt) and bool(rf) and len(returns(f)) == len(rt) + len(rf)
+        if ok:
+            fn_ = fs[0][0]
+            # True only after fstat returned normally; an exception from fstat can only end in False
+            ok = all(g.dominated_by(r, {fn_}, skip_labels=('exc',))[0] for r in rt)
+            exc_t = [s_ for s_, l_ in fn_.succ if l_ == 'exc']
+            ok = ok and bool(exc_t) and all(g.path(s_, rt | {g.raise_exit}, skip_labels=()) is None for s_ in exc_t)
+        c.check(ok, f, trs[0] if trs else None, 'alive iff os.fstat(self.child_fd) succeeds', kind='path', tag='fd-fstat')
+        if fs:
+            c.check(bool(t0) and g.dominated_by(fs[0][0], {t0[0]})[0], f, fs[0][1], 'the closed test comes first', tag='fd-order')
         f = repo.func('socket_pexpect:SocketSpawn.isalive')
         rr = returns(f)
         gs = f.cfg
@@ -166,6 +172,27 @@ def check_pty_close(c, f):
 FD_PRIMS = ('os.read', 'os.write', 'os.close', 'os.isatty', 'os.fstat')
 
 
+def from_params_only(f, name, _seen=None):
+    """the local is a parameter, or is computed only from parameters (never from an attribute of self: that would be a remembered copy)"""
+    seen = _seen or set()
+    if name in seen:
+        return True
+    seen.add(name)
+    defs = [n for n in iter_nodes(f.node) if isinstance(n, (ast.Assign, ast.AugAssign)) and name in assigned_names(n)]
+    if name in f.params and not defs:
+        return True
+    if not defs and name not in f.params:
+        return False
+    for d in defs:
+        for x in ast.walk(d.value):
+            if isinstance(x, ast.Attribute) and isinstance(x.value, ast.Name) and x.value.id == 'self':
+                return False
+            if isinstance(x, ast.Name) and isinstance(x.ctx, ast.Load) and x.id not in ('self', name) and x.id not in f.params \
+                    and x.id not in ('int', 'type', 'hasattr', 'isinstance', 'getattr') and not from_params_only(f, x.id, seen):
+                return False
+    return True
+
+
 def check_fd_uses(c, repo):
     n = 0
     for f in repo.package_funcs():
@@ -179,7 +206,7 @@ def check_fd_uses(c, repo):
                 if t in ('self.STDOUT_FILENO', 'self.STDIN_FILENO', 'self.STDERR_FILENO'):
                     continue
                 n += 1
-                ok = t == 'self.child_fd' or (isinstance(a, ast.Name) and a.id in f.params)
+                ok = t == 'self.child_fd' or (isinstance(a, ast.Name) and from_params_only(f, a.id))
                 c.check(ok, f, k, '%s uses self.child_fd as it is now (after close() it is -1 and the call fails with EBADF instead of '
                         'touching whoever owns the old number)' % d, witness=t, kind='ast', tag='fd-current:%s:%s' % (f.qual, d))
             if callee_last(k) in ('select_ignore_interrupts', 'poll_ignore_interrupts') and k.args:
